@@ -24,3 +24,8 @@ size_t verif_ctl_const_write(const cbor_item_t* item) {
 size_t verif_ctl_const_write_deep(const cbor_item_t* item) {
   return cbor_refcount(cbor_move(cbor_incref((cbor_item_t*)item)));
 }
+
+/* *.declared-effects: a function promised to the compiler as `pure` that takes a reference */
+__attribute__((__pure__)) cbor_item_t* verif_ctl_pure_get(const cbor_item_t* item) {
+  return cbor_incref(((cbor_item_t**)item->data)[0]);
+}
